@@ -321,6 +321,10 @@ pub struct CaseSpec {
     /// the object fact `F` when there is one (Facts::get_nested; the flat name is the fallback),
     /// so these must change no verdict.
     pub flat_decoys: BTreeMap<String, Lit>,
+    /// with `engine_reused`: the decoy knowledge base ends with one more rule (always true, same
+    /// salience as the first rule) whose action panics inside the worker that runs it. Whatever
+    /// that call returns, the next call on the same engine is judged like any other.
+    pub decoy_panics: bool,
 }
 
 impl CaseSpec {
@@ -340,6 +344,7 @@ impl CaseSpec {
             "schedules": self.schedules,
             "engine_first_ran_a_decoy_knowledge_base": self.engine_reused,
             "via_grl": self.via_grl,
+            "decoy_run_ends_in_a_panicking_action": self.decoy_panics,
             "flat_facts_named_like_a_dotted_path": self.flat_decoys.iter().map(|(k, v)| (k.clone(), v.to_json())).collect::<serde_json::Map<String, Json>>(),
         })
     }
@@ -378,6 +383,7 @@ impl CaseSpec {
                 .as_object()
                 .map(|o| o.iter().filter_map(|(k, v)| Some((k.clone(), Lit::from_json(v)?))).collect())
                 .unwrap_or_default(),
+            decoy_panics: j["decoy_run_ends_in_a_panicking_action"].as_bool().unwrap_or(false),
         })
     }
     pub fn grl_text(&self) -> String {
@@ -454,6 +460,23 @@ pub fn gen_facts(rng: &mut Rng) -> BTreeMap<String, Lit> {
     f
 }
 
+/// A WIDE case: 65..=200 rules on one or two salience levels and a thread limit of 32..=256
+/// (more chunks and more worker threads per level than any small configuration has).
+pub fn gen_wide_case(rng: &mut Rng, schedules: u32) -> CaseSpec {
+    let n = 65 + rng.below(136);
+    let max_threads = *rng.pick(&[32usize, 64, 65, 100, 128, 200, 256]);
+    let min_rules = 1 + rng.below(2);
+    let mut c = gen_case(rng, n, max_threads, min_rules, schedules, false, true);
+    let levels = *rng.pick(&[1usize, 1, 2]);
+    for (i, r) in c.rules.iter_mut().enumerate() {
+        r.salience = if levels == 1 { 5 } else { [5, 0][i % 2] };
+        if !r.enabled && i % 3 != 0 {
+            r.enabled = true;
+        }
+    }
+    c
+}
+
 /// A case whose rules have LONG conditions: left-leaning chains of 12..=96 leaves under && (a flat
 /// `a && b && c ...` as the parser builds it), some under ||, some wrapped in towers of `!`.
 /// All rules on one salience level, so they are evaluated side by side by the workers.
@@ -497,7 +520,7 @@ pub fn gen_deep_case(rng: &mut Rng, schedules: u32) -> CaseSpec {
         }
         rules.push(RuleSpec { name: format!("R{:02}", i), salience: 5, enabled: true, cond: c, actions });
     }
-    CaseSpec { rules, facts, max_threads: *rng.pick(&[1usize, 2, 3, 4, 8, 16, 16]), min_rules_per_thread: 1 + rng.below(2), schedules, via_grl: false, engine_reused: false, flat_decoys: BTreeMap::new() }
+    CaseSpec { rules, facts, max_threads: *rng.pick(&[1usize, 2, 3, 4, 8, 16, 16]), min_rules_per_thread: 1 + rng.below(2), schedules, via_grl: false, engine_reused: false, flat_decoys: BTreeMap::new(), decoy_panics: false }
 }
 
 /// Random case: `n_rules` rules with salience ties. `small` = Miri-sized (no GRL text, shallow).
@@ -555,7 +578,8 @@ pub fn gen_case(rng: &mut Rng, n_rules: usize, max_threads: usize, min_rules: us
             }
         }
     }
-    CaseSpec { rules, facts, max_threads, min_rules_per_thread: min_rules, schedules, via_grl, engine_reused, flat_decoys }
+    let decoy_panics = engine_reused && rng.chance(1, 3);
+    CaseSpec { rules, facts, max_threads, min_rules_per_thread: min_rules, schedules, via_grl, engine_reused, flat_decoys, decoy_panics }
 }
 
 // ------------------------------------------------------------------------------------------------
@@ -686,8 +710,24 @@ pub fn run_once(c: &CaseSpec, rules: &[Rule], parallel: bool) -> RunRes {
                     return RunRes::Error(format!("add_rule (decoy): {:?}", e));
                 }
             }
+            if c.decoy_panics {
+                engine.register_function("boom", move |_args, _facts| panic!("decoy action panics"));
+                let boom = Rule::new(
+                    "Zboom".to_string(),
+                    ConditionGroup::single(Condition::new("Boom.on".to_string(), Operator::Equal, Value::Boolean(true))),
+                    vec![ActionType::Custom { action_type: "boom".to_string(), params: HashMap::new() }],
+                )
+                .with_salience(rules[0].salience);
+                if let Err(e) = decoy.add_rule(boom) {
+                    return RunRes::Error(format!("add_rule (decoy): {:?}", e));
+                }
+            }
             let decoy_facts = build_facts(c);
-            let _ = engine.execute_parallel(&decoy, &decoy_facts, false);
+            if c.decoy_panics {
+                let _ = decoy_facts.add_value("Boom", Facts::create_object(vec![("on".to_string(), Value::Boolean(true))]));
+            }
+            // (the decoy call may fail or unwind: its outcome is not judged)
+            let _ = catch_unwind(AssertUnwindSafe(|| engine.execute_parallel(&decoy, &decoy_facts, false)));
             for m in marks.iter() {
                 m.store(0, Ordering::SeqCst);
             }
